@@ -107,7 +107,7 @@ Proof.
   destruct (String.eqb c "AttributeRequirementTemplate"); [apply attribute_rule_iff|].
   destruct (String.eqb c "HostRequirementsTemplate"); [apply host_req_rule_iff|].
   destruct (String.eqb c "StepTemplate"); [cbv zeta; apply step_rule_iff|].
-  destruct (String.eqb c "RangeExpressionTaskParameterDefinition"); [apply ok_match_iff|].
+  destruct (String.eqb c "RangeExpressionTaskParameterDefinition"); [apply range_expr_ok_iff|].
   destruct (String.eqb c "IntRangeListTaskParameterDefinition").
   { unfold IntRangeListRule. rewrite forallb_forall. split; intros H it Hin; specialize (H it Hin).
     - destruct (parse_int (mstr it)) as [z|]; [exists z; reflexivity|discriminate].
